@@ -356,3 +356,872 @@ def wv(w):
 def make_spec(name, args):
     cls = {"Hypergraph": HypergraphSpec}[name]
     return cls(tuple(args["universe"]), args["absent"])
+
+
+# =========================================================================================
+# DirectedHypergraph
+# =========================================================================================
+def ds(e):
+    try:
+        return (tuple(sorted(e[0])), tuple(sorted(e[1])))
+    except Exception:
+        return ("?", repr(e))
+
+
+class DFacade:
+    def __init__(self, m):
+        self.m = m
+
+    def _E(self, f=()):
+        return [k for k in self.m.edges if fmatch(f, len(k[0]) + len(k[1]))]
+
+    @staticmethod
+    def _k(e):
+        return KINDS["DirectedHypergraph"].key(e)
+
+    def get_nodes(self, metadata=False):
+        return dict(self.m.nodes) if metadata else list(self.m.nodes)
+
+    def num_nodes(self):
+        return len(self.m.nodes)
+
+    def check_node(self, n):
+        return n in self.m.nodes
+
+    def check_edge(self, e):
+        return self._k(e) in self.m.edges
+
+    def get_edges(self, metadata=False, **f):
+        ks = self._E(tuple(f.items()))
+        if metadata:
+            return {ds(k): self.m.edges[k][1] for k in ks}
+        return [ds(k) for k in ks]
+
+    def num_edges(self):
+        return len(self.m.edges)
+
+    def get_weights(self, asdict=False, **f):
+        d = {ds(k): self.m.edges[k][0] for k in self._E(tuple(f.items()))}
+        return d if asdict else list(d.values())
+
+    def get_weight(self, e):
+        return self.m.edges[self._k(e)][0]
+
+    def get_sources(self):
+        return [tuple(sorted(k[0])) for k in self.m.edges]
+
+    def get_targets(self):
+        return [tuple(sorted(k[1])) for k in self.m.edges]
+
+    def _need(self, n):
+        if n not in self.m.nodes:
+            raise KeyError(n)
+
+    def get_source_edges(self, n, **f):
+        self._need(n)
+        return [ds(k) for k in self._E(tuple(f.items())) if n in k[0]]
+
+    def get_target_edges(self, n, **f):
+        self._need(n)
+        return [ds(k) for k in self._E(tuple(f.items())) if n in k[1]]
+
+    def get_incident_edges(self, n, **f):
+        return self.get_source_edges(n, **f) + self.get_target_edges(n, **f)
+
+    def get_neighbors(self, n, **f):
+        self._need(n)
+        s = set()
+        for k in self._E(tuple(f.items())):
+            if n in k[0] or n in k[1]:
+                s |= k[0] | k[1]
+        s.discard(n)
+        return s
+
+    def degree(self, n, **f):
+        return len(self.get_incident_edges(n, **f))
+
+    def in_degree(self, n, **f):
+        return len(self.get_source_edges(n, **f))
+
+    def out_degree(self, n, **f):
+        return len(self.get_target_edges(n, **f))
+
+    def get_sizes(self):
+        return [len(k[0]) + len(k[1]) for k in self.m.edges]
+
+    def get_orders(self):
+        return [s - 1 for s in self.get_sizes()]
+
+    def distribution_sizes(self):
+        return dict(Counter(self.get_sizes()))
+
+    def max_size(self):
+        return max(self.get_sizes())
+
+    def max_order(self):
+        return self.max_size() - 1
+
+    def is_uniform(self):
+        return len(set(self.get_sizes())) <= 1
+
+    def is_weighted(self):
+        return self.m.weighted
+
+    def get_node_metadata(self, n):
+        return self.m.nodes[n]
+
+    def get_edge_metadata(self, e):
+        return self.m.edges[self._k(e)][1]
+
+    def get_all_nodes_metadata(self):
+        return list(self.m.nodes.values())
+
+    def get_all_edges_metadata(self):
+        return {i: md for i, (w, md) in enumerate(self.m.edges.values())}
+
+    def get_hypergraph_metadata(self):
+        return dict(self.m.hmeta)
+
+    def __len__(self):
+        return len(self.m.edges)
+
+
+class DirectedSpec:
+    name = "DirectedHypergraph"
+    kind = KINDS["DirectedHypergraph"]
+
+    def __init__(self, universe, absent, cand_edges):
+        self.U = tuple(universe)
+        self.absent = absent
+        self.K = len(self.U)
+        self.cand0 = [tuple(e) for e in cand_edges]
+        self.cand = self.cand0 + [((self.U[0],), (absent,))]
+        self.F = filters(self.K)
+        self.NF = nfilters(self.K)
+
+    def args(self):
+        return {"universe": list(self.U), "absent": self.absent, "cand": [repr(e) for e in self.cand0]}
+
+    def new(self, weighted):
+        from hypergraphx import DirectedHypergraph
+
+        return DirectedHypergraph(weighted=weighted)
+
+    def model(self, weighted):
+        return MapModel(self.kind, weighted)
+
+    def facade(self, m):
+        return DFacade(m)
+
+    def apply(self, h, op):
+        n = op[0]
+        if n == "add_node":
+            h.add_node(op[1]) if op[2] is None else h.add_node(op[1], metadata=md_of(op[2]))
+        elif n == "add_nodes":
+            h.add_nodes(list(op[1]))
+        elif n == "add_edge":
+            _, raw, _x, w, md = op
+            kw = {}
+            if w is not None:
+                kw["weight"] = w
+            if md is not None:
+                kw["metadata"] = md_of(md)
+            h.add_edge(raw, **kw)
+        elif n == "add_edges":
+            _, raws, _x, ws, mds = op
+            kw = {}
+            if ws is not None:
+                kw["weights"] = list(ws)
+            if mds is not None:
+                kw["metadata"] = [md_of(x) for x in mds]
+            h.add_edges(list(raws), **kw)
+        elif n == "remove_edge":
+            h.remove_edge(op[1])
+        elif n == "remove_edges":
+            h.remove_edges([r for r, _x in op[1]])
+        elif n == "remove_node":
+            h.remove_node(op[1], keep_edges=op[2])
+        elif n == "remove_nodes":
+            h.remove_nodes(list(op[1]), keep_edges=op[2])
+        elif n == "set_weight":
+            h.set_weight(op[1], op[3])
+        elif n == "set_node_metadata":
+            h.set_node_metadata(op[1], md_of(op[2]))
+        elif n == "set_edge_metadata":
+            h.set_edge_metadata(op[1], md_of(op[3]))
+        elif n == "set_attr_node":
+            h.set_attr_to_node_metadata(op[1], op[2], op[3])
+        elif n == "rm_attr_node":
+            h.remove_attr_from_node_metadata(op[1], op[2])
+        elif n == "set_attr_edge":
+            h.set_attr_to_edge_metadata(op[1], op[3], op[4])
+        elif n == "rm_attr_edge":
+            h.remove_attr_from_edge_metadata(op[1], op[3])
+        elif n == "set_attr_hg":
+            h.set_attr_to_hypergraph_metadata(op[1], op[2])
+        elif n == "clear":
+            h.clear()
+        elif n == "copy":
+            return h.copy()
+        else:
+            raise ValueError(op)
+        return h
+
+    def observe(self, h):
+        is_model = isinstance(h, DFacade)
+        if is_model:
+            deg = lambda n, **f: h.degree(n, **f)
+            ind = lambda n, **f: h.in_degree(n, **f)
+            outd = lambda n, **f: h.out_degree(n, **f)
+            inseq = lambda: {n: h.in_degree(n) for n in h.get_nodes()}
+            outseq = lambda: {n: h.out_degree(n) for n in h.get_nodes()}
+        else:
+            from hypergraphx.measures.degree import degree as _deg
+            from hypergraphx.measures.directed import in_degree, out_degree, in_degree_sequence, out_degree_sequence
+
+            deg = lambda n, **f: _deg(h, n, **f)
+            ind = lambda n, **f: in_degree(h, n, **f)
+            outd = lambda n, **f: out_degree(h, n, **f)
+            inseq = lambda: in_degree_sequence(h)
+            outseq = lambda: out_degree_sequence(h)
+        o = {}
+        nodes = q(lambda: h.get_nodes())
+        o["get_nodes"] = ms(nodes) if nodes is not ERR else ERR
+        o["get_nodes(metadata=True)"] = q(lambda: cdict(h.get_nodes(metadata=True), fv=cmd))
+        o["num_nodes"] = q(h.num_nodes)
+        o["is_weighted"] = q(h.is_weighted)
+        o["is_uniform"] = q(h.is_uniform)
+        o["len"] = q(lambda: len(h))
+        o["num_edges"] = q(h.num_edges)
+        o["get_sizes"] = q(lambda: ms(h.get_sizes()))
+        o["get_orders"] = q(lambda: ms(h.get_orders()))
+        o["distribution_sizes"] = q(lambda: cdict(h.distribution_sizes()))
+        if o["len"] not in (0, ERR):
+            o["max_size"] = q(h.max_size)
+            o["max_order"] = q(h.max_order)
+        o["get_sources"] = q(lambda: ms(h.get_sources(), st))
+        o["get_targets"] = q(lambda: ms(h.get_targets(), st))
+        o["get_all_nodes_metadata"] = q(lambda: ms(h.get_all_nodes_metadata(), cmd))
+        o["get_all_edges_metadata"] = q(lambda: ms(h.get_all_edges_metadata().values(), cmd))
+        o["get_hypergraph_metadata"] = q(lambda: user_hmeta(h.get_hypergraph_metadata()))
+        for f in self.F:
+            kw = dict(f)
+            fn = fname(f)
+            o["get_edges(%s)" % fn] = q(lambda: ms(h.get_edges(**kw), ds))
+            o["get_weights(%s,asdict)" % fn] = q(lambda: cdict(h.get_weights(asdict=True, **kw), fk=ds, fv=wv))
+            o["get_weights(%s)" % fn] = q(lambda: ms(h.get_weights(**kw), wv))
+        o["get_edges(metadata=True)"] = q(lambda: cdict(h.get_edges(metadata=True), fk=ds, fv=cmd))
+        for n in self.U + (self.absent,):
+            o["check_node(%r)" % (n,)] = q(lambda: h.check_node(n))
+        for n in self.U:
+            if nodes is ERR or n not in nodes:
+                continue
+            o["get_node_metadata(%r)" % (n,)] = q(lambda: cmd(h.get_node_metadata(n)))
+            for f in self.NF:
+                kw = dict(f)
+                fn = fname(f)
+                o["get_source_edges(%r,%s)" % (n, fn)] = q(lambda: ms(h.get_source_edges(n, **kw), ds))
+                o["get_target_edges(%r,%s)" % (n, fn)] = q(lambda: ms(h.get_target_edges(n, **kw), ds))
+                o["get_incident_edges(%r,%s)" % (n, fn)] = q(lambda: ms(h.get_incident_edges(n, **kw), ds))
+                o["get_neighbors(%r,%s)" % (n, fn)] = q(lambda: ms(set(h.get_neighbors(n, **kw))))
+                o["degree(%r,%s)" % (n, fn)] = q(lambda: deg(n, **kw))
+                o["in_degree(%r,%s)" % (n, fn)] = q(lambda: ind(n, **kw))
+                o["out_degree(%r,%s)" % (n, fn)] = q(lambda: outd(n, **kw))
+        o["in_degree_sequence"] = q(lambda: cdict(inseq()))
+        o["out_degree_sequence"] = q(lambda: cdict(outseq()))
+        for e in self.cand:
+            c = q(lambda: h.check_edge(e))
+            o["check_edge(%r)" % (e,)] = c
+            if c is True:
+                o["get_weight(%r)" % (e,)] = q(lambda: wv(h.get_weight(e)))
+                o["get_edge_metadata(%r)" % (e,)] = q(lambda: cmd(h.get_edge_metadata(e)))
+                r = (tuple(reversed(e[0])), tuple(reversed(e[1])))
+                if r != e:
+                    o["check_edge(%r)" % (r,)] = q(lambda: h.check_edge(r))
+                    o["get_weight(%r)" % (r,)] = q(lambda: wv(h.get_weight(r)))
+        return o
+
+    def content(self, h):
+        return (
+            self.name,
+            q(h.is_weighted),
+            q(lambda: cdict(h.get_nodes(metadata=True), fv=cmd)),
+            q(lambda: tuple(sorted(((ds(e), wv(h.get_weight(e)), cmd(h.get_edge_metadata(e))) for e in h.get_edges()), key=repr))),
+            q(lambda: user_hmeta(h.get_hypergraph_metadata())),
+        )
+
+
+# =========================================================================================
+# TemporalHypergraph
+# =========================================================================================
+def ts(e):
+    try:
+        return (e[0], tuple(sorted(e[1])))
+    except Exception:
+        return ("?", repr(e))
+
+
+def hg_canon(h, with_nodes=False, with_node_md=False):
+    """canonical view of a plain Hypergraph returned by a derivation"""
+    try:
+        edges = tuple(sorted(((st(e), wv(h.get_weight(e))) for e in h.get_edges()), key=repr))
+        out = [bool(h.is_weighted()), edges]
+        if with_nodes:
+            out.append(ms(h.get_nodes()))
+        if with_node_md:
+            out.append(cdict(h.get_nodes(metadata=True), fv=cmd))
+        return tuple(out)
+    except Exception as e:
+        return ("?", repr(e))
+
+
+class _PlainView:
+    """a plain hypergraph given by definition (for derived objects)"""
+
+    def __init__(self, weighted, nodes, edges):
+        self.w, self.nodes, self.edges = weighted, nodes, edges  # nodes: {n: md}; edges: {frozenset: weight}
+
+    def is_weighted(self):
+        return self.w
+
+    def get_edges(self):
+        return [tuple(sorted(k)) for k in self.edges]
+
+    def get_weight(self, e):
+        return self.edges[frozenset(e)]
+
+    def get_nodes(self, metadata=False):
+        return dict(self.nodes) if metadata else list(self.nodes)
+
+
+class TFacade:
+    def __init__(self, m):
+        self.m = m
+
+    def _E(self, f=(), window=None):
+        out = []
+        for k in self.m.edges:
+            if window is not None and not (window[0] <= k[0] < window[1]):
+                continue
+            if fmatch(f, len(k[1])):
+                out.append(k)
+        return out
+
+    def get_nodes(self, metadata=False):
+        return dict(self.m.nodes) if metadata else list(self.m.nodes)
+
+    def num_nodes(self):
+        return len(self.m.nodes)
+
+    def check_node(self, n):
+        return n in self.m.nodes
+
+    def check_edge(self, e, t):
+        return (t, frozenset(e)) in self.m.edges
+
+    def get_edges(self, time_window=None, metadata=False, **f):
+        ks = self._E(tuple(f.items()), time_window)
+        if metadata:
+            return {ts(k): self.m.edges[k][1] for k in ks}
+        return [ts(k) for k in ks]
+
+    def num_edges(self, **f):
+        return len(self._E(tuple(f.items())))
+
+    def get_weights(self, asdict=False, **f):
+        d = {ts(k): self.m.edges[k][0] for k in self._E(tuple(f.items()))}
+        return d if asdict else list(d.values())
+
+    def get_weight(self, e, t):
+        return self.m.edges[(t, frozenset(e))][0]
+
+    def get_times_for_edge(self, e):
+        return [k[0] for k in self.m.edges if k[1] == frozenset(e)]
+
+    def min_time(self):
+        return min(k[0] for k in self.m.edges)
+
+    def max_time(self):
+        return max(k[0] for k in self.m.edges)
+
+    def _need(self, n):
+        if n not in self.m.nodes:
+            raise KeyError(n)
+
+    def get_incident_edges(self, n, **f):
+        self._need(n)
+        return [ts(k) for k in self._E(tuple(f.items())) if n in k[1]]
+
+    def get_neighbors(self, n, **f):
+        self._need(n)
+        s = set()
+        for k in self._E(tuple(f.items())):
+            if n in k[1]:
+                s |= k[1]
+        s.discard(n)
+        return s
+
+    def degree(self, n, **f):
+        return len(self.get_incident_edges(n, **f))
+
+    def get_sizes(self):
+        return [len(k[1]) for k in self.m.edges]
+
+    def get_orders(self):
+        return [len(k[1]) - 1 for k in self.m.edges]
+
+    def distribution_sizes(self):
+        return dict(Counter(self.get_sizes()))
+
+    def max_size(self):
+        return max(self.get_sizes())
+
+    def max_order(self):
+        return self.max_size() - 1
+
+    def is_uniform(self):
+        return len(set(self.get_sizes())) <= 1
+
+    def is_weighted(self):
+        return self.m.weighted
+
+    def get_node_metadata(self, n):
+        return self.m.nodes[n]
+
+    def get_edge_metadata(self, e, t):
+        return self.m.edges[(t, frozenset(e))][1]
+
+    def get_all_nodes_metadata(self):
+        return dict(self.m.nodes)
+
+    def get_all_edges_metadata(self):
+        return {i: md for i, (w, md) in enumerate(self.m.edges.values())}
+
+    def get_hypergraph_metadata(self):
+        return dict(self.m.hmeta)
+
+    def __len__(self):
+        return len(self.m.edges)
+
+    def subhypergraph(self, time_window=None):
+        res = {}
+        for k, (w, md) in self.m.edges.items():
+            if time_window is None or time_window[0] <= k[0] < time_window[1]:
+                res.setdefault(k[0], {})[k[1]] = w
+        return {t: _PlainView(self.m.weighted, {}, es) for t, es in res.items()}
+
+    def aggregate(self, width):
+        if isinstance(width, bool) or not isinstance(width, int) or width <= 0:
+            raise TypeError
+        if not self.m.edges:
+            return {}
+        mt = self.max_time()
+        out = {}
+        for i in range(mt // width + 1):
+            es = {}
+            for k, (w, md) in self.m.edges.items():
+                if i * width <= k[0] < (i + 1) * width:
+                    es[k[1]] = (es.get(k[1], 0) + w) if self.m.weighted else 1
+            out[i] = _PlainView(self.m.weighted, dict(self.m.nodes), es)
+        return out
+
+
+class TemporalSpec:
+    name = "TemporalHypergraph"
+    kind = KINDS["TemporalHypergraph"]
+
+    def __init__(self, universe, absent, cand_edges, times=(0, 1, 2)):
+        self.U = tuple(universe)
+        self.absent = absent
+        self.K = len(self.U)
+        self.cand0 = [tuple(e) for e in cand_edges]
+        self.times = tuple(times)
+        self.F = filters(self.K)
+        self.NF = nfilters(self.K)
+        T = max(self.times) + 1
+        self.windows = [(a, b) for a in range(0, T + 1) for b in range(a, T + 1)]
+        self.widths = (1, 2, 3, T + 1)
+
+    def args(self):
+        return {"universe": list(self.U), "absent": self.absent, "cand": [repr(e) for e in self.cand0], "times": list(self.times)}
+
+    def new(self, weighted):
+        from hypergraphx import TemporalHypergraph
+
+        return TemporalHypergraph(weighted=weighted)
+
+    def model(self, weighted):
+        return MapModel(self.kind, weighted)
+
+    def facade(self, m):
+        return TFacade(m)
+
+    def apply(self, h, op):
+        n = op[0]
+        if n == "add_node":
+            h.add_node(op[1]) if op[2] is None else h.add_node(op[1], metadata=md_of(op[2]))
+        elif n == "add_nodes":
+            if op[2] is None:
+                h.add_nodes(list(op[1]))
+            else:
+                h.add_nodes(list(op[1]), metadata={k: md_of(v) for k, v in op[2]})
+        elif n == "add_edge":
+            _, raw, t, w, md = op
+            kw = {}
+            if w is not None:
+                kw["weight"] = w
+            if md is not None:
+                kw["metadata"] = md_of(md)
+            h.add_edge(raw, t, **kw)
+        elif n == "add_edges":
+            _, raws, ts_, ws, mds = op
+            kw = {}
+            if ws is not None:
+                kw["weights"] = list(ws)
+            if mds is not None:
+                kw["metadata"] = [md_of(x) for x in mds]
+            h.add_edges(list(raws), list(ts_), **kw)
+        elif n == "remove_edge":
+            h.remove_edge(op[1], op[2])
+        elif n == "remove_node":
+            h.remove_node(op[1], keep_edges=op[2])
+        elif n == "remove_nodes":
+            h.remove_nodes(list(op[1]), keep_edges=op[2])
+        elif n == "set_weight":
+            h.set_weight(op[1], op[2], op[3])
+        elif n == "set_node_metadata":
+            h.set_node_metadata(op[1], md_of(op[2]))
+        elif n == "set_edge_metadata":
+            h.set_edge_metadata(op[1], op[2], md_of(op[3]))
+        elif n == "set_attr_node":
+            h.set_attr_to_node_metadata(op[1], op[2], op[3])
+        elif n == "rm_attr_node":
+            h.remove_attr_from_node_metadata(op[1], op[2])
+        elif n == "set_attr_edge":
+            h.set_attr_to_edge_metadata(op[1], op[2], op[3], op[4])
+        elif n == "rm_attr_edge":
+            h.remove_attr_from_edge_metadata(op[1], op[2], op[3])
+        elif n == "set_attr_hg":
+            h.set_attr_to_hypergraph_metadata(op[1], op[2])
+        elif n == "clear":
+            h.clear()
+        elif n == "copy":
+            return h.copy()
+        else:
+            raise ValueError(op)
+        return h
+
+    def observe(self, h):
+        is_model = isinstance(h, TFacade)
+        if is_model:
+            deg = lambda n, **f: h.degree(n, **f)
+        else:
+            from hypergraphx.measures.degree import degree as _deg
+
+            deg = lambda n, **f: _deg(h, n, **f)
+        o = {}
+        nodes = q(lambda: h.get_nodes())
+        o["get_nodes"] = ms(nodes) if nodes is not ERR else ERR
+        o["get_nodes(metadata=True)"] = q(lambda: cdict(h.get_nodes(metadata=True), fv=cmd))
+        o["num_nodes"] = q(h.num_nodes)
+        o["is_weighted"] = q(h.is_weighted)
+        o["is_uniform"] = q(h.is_uniform)
+        o["len"] = q(lambda: len(h))
+        o["get_sizes"] = q(lambda: ms(h.get_sizes()))
+        o["get_orders"] = q(lambda: ms(h.get_orders()))
+        o["distribution_sizes"] = q(lambda: cdict(h.distribution_sizes()))
+        nonempty = o["len"] not in (0, ERR)
+        if nonempty:
+            o["max_size"] = q(h.max_size)
+            o["max_order"] = q(h.max_order)
+            o["min_time"] = q(h.min_time)
+            o["max_time"] = q(h.max_time)
+        o["get_all_nodes_metadata"] = q(lambda: cdict(h.get_all_nodes_metadata(), fv=cmd))
+        o["get_all_edges_metadata"] = q(lambda: ms(h.get_all_edges_metadata().values(), cmd))
+        o["get_hypergraph_metadata"] = q(lambda: user_hmeta(h.get_hypergraph_metadata()))
+        for f in self.F:
+            kw = dict(f)
+            fn = fname(f)
+            o["get_edges(%s)" % fn] = q(lambda: ms(h.get_edges(**kw), ts))
+            o["num_edges(%s)" % fn] = q(lambda: h.num_edges(**kw))
+            o["get_weights(%s,asdict)" % fn] = q(lambda: cdict(h.get_weights(asdict=True, **kw), fk=ts, fv=wv))
+            o["get_weights(%s)" % fn] = q(lambda: ms(h.get_weights(**kw), wv))
+        o["get_edges(metadata=True)"] = q(lambda: cdict(h.get_edges(metadata=True), fk=ts, fv=cmd))
+        for win in self.windows:
+            for f in self.NF:
+                kw = dict(f)
+                o["get_edges(time_window=%r,%s)" % (win, fname(f))] = q(lambda: ms(h.get_edges(time_window=win, **kw), ts))
+            o["get_edges(time_window=%r,size=2,up_to)" % (win,)] = q(lambda: ms(h.get_edges(time_window=win, size=2, up_to=True), ts))
+            o["subhypergraph(%r)" % (win,)] = q(lambda: cdict(h.subhypergraph(time_window=win), fv=hg_canon))
+        o["subhypergraph(None)"] = q(lambda: cdict(h.subhypergraph(), fv=hg_canon))
+        if nonempty:
+            for w in self.widths:
+                o["aggregate(%r)" % (w,)] = q(lambda: cdict(h.aggregate(w), fv=lambda x: hg_canon(x, with_nodes=True, with_node_md=True)))
+        for w in (0, -1, 1.5):
+            o["aggregate(%r)" % (w,)] = q(lambda: cdict(h.aggregate(w)))
+        for n in self.U + (self.absent,):
+            o["check_node(%r)" % (n,)] = q(lambda: h.check_node(n))
+        for n in self.U:
+            if nodes is ERR or n not in nodes:
+                continue
+            o["get_node_metadata(%r)" % (n,)] = q(lambda: cmd(h.get_node_metadata(n)))
+            for f in self.NF:
+                kw = dict(f)
+                fn = fname(f)
+                o["get_incident_edges(%r,%s)" % (n, fn)] = q(lambda: ms(h.get_incident_edges(n, **kw), ts))
+                o["get_neighbors(%r,%s)" % (n, fn)] = q(lambda: ms(set(h.get_neighbors(n, **kw))))
+                o["degree(%r,%s)" % (n, fn)] = q(lambda: deg(n, **kw))
+        for e in self.cand0:
+            o["get_times_for_edge(%r)" % (e,)] = q(lambda: ms(h.get_times_for_edge(e)))
+            for t in self.times:
+                c = q(lambda: h.check_edge(e, t))
+                o["check_edge(%r,%r)" % (e, t)] = c
+                if c is True:
+                    o["get_weight(%r,%r)" % (e, t)] = q(lambda: wv(h.get_weight(e, t)))
+                    o["get_edge_metadata(%r,%r)" % (e, t)] = q(lambda: cmd(h.get_edge_metadata(e, t)))
+                    if len(e) > 1:
+                        r = tuple(reversed(e))
+                        o["check_edge(%r,%r)" % (r, t)] = q(lambda: h.check_edge(r, t))
+                        o["get_weight(%r,%r)" % (r, t)] = q(lambda: wv(h.get_weight(r, t)))
+        o["check_edge(absent)"] = q(lambda: h.check_edge((self.U[0], self.absent), self.times[0]))
+        # windows, snapshots and aggregation must leave the temporal object unchanged
+        o["unchanged-after-derivations"] = q(lambda: (
+            ms(h.get_edges(), ts),
+            cdict(h.get_nodes(metadata=True), fv=cmd),
+            cdict(h.get_weights(asdict=True), fk=ts, fv=wv),
+            cdict(h.get_edges(metadata=True), fk=ts, fv=cmd),
+            user_hmeta(h.get_hypergraph_metadata()),
+            bool(h.is_weighted()),
+        ))
+        return o
+
+    def content(self, h):
+        return (
+            self.name,
+            q(h.is_weighted),
+            q(lambda: cdict(h.get_nodes(metadata=True), fv=cmd)),
+            q(lambda: tuple(sorted(((ts(e), wv(h.get_weight(e[1], e[0])), cmd(h.get_edge_metadata(e[1], e[0]))) for e in h.get_edges()), key=repr))),
+            q(lambda: user_hmeta(h.get_hypergraph_metadata())),
+        )
+
+
+# =========================================================================================
+# MultiplexHypergraph
+# =========================================================================================
+def mx(e):
+    try:
+        return (tuple(sorted(e[0])), e[1])
+    except Exception:
+        return ("?", repr(e))
+
+
+class MFacade:
+    def __init__(self, m):
+        self.m = m
+
+    def get_nodes(self, metadata=False):
+        return dict(self.m.nodes) if metadata else list(self.m.nodes)
+
+    def get_edges(self, metadata=False):
+        if metadata:
+            return {mx(k): md for k, (w, md) in self.m.edges.items()}
+        return [mx(k) for k in self.m.edges]
+
+    def is_weighted(self):
+        return self.m.weighted
+
+    def get_weight(self, e, layer):
+        return self.m.edges[(frozenset(e), layer)][0]
+
+    def get_edge_metadata(self, e, layer):
+        return self.m.edges[(frozenset(e), layer)][1]
+
+    def layers_in_use(self):
+        return {k[1] for k in self.m.edges}
+
+    def get_incident_edges(self, n, **f):
+        if n not in self.m.nodes:
+            raise KeyError(n)
+        f = tuple(f.items())
+        return [mx(k) for k in self.m.edges if n in k[0] and fmatch(f, len(k[0]))]
+
+    def degree(self, n, **f):
+        return len(self.get_incident_edges(n, **f))
+
+    def get_hypergraph_metadata(self):
+        return dict(self.m.hmeta)
+
+    def aggregated_hypergraph(self):
+        es = {}
+        for k, (w, md) in self.m.edges.items():
+            es[k[0]] = (es.get(k[0], 0) + w) if self.m.weighted else 1
+        return _PlainView(self.m.weighted, dict(self.m.nodes), es)
+
+    def edge_overlap(self, e):
+        return sum(w for k, (w, md) in self.m.edges.items() if k[0] == frozenset(e))
+
+
+class MultiplexSpec:
+    name = "MultiplexHypergraph"
+    kind = KINDS["MultiplexHypergraph"]
+
+    def __init__(self, universe, absent, cand_edges, layers=("a", "b")):
+        self.U = tuple(universe)
+        self.absent = absent
+        self.K = len(self.U)
+        self.cand0 = [tuple(e) for e in cand_edges]
+        self.layers = tuple(layers)
+        self.NF = nfilters(self.K)
+
+    def args(self):
+        return {"universe": list(self.U), "absent": self.absent, "cand": [repr(e) for e in self.cand0], "layers": list(self.layers)}
+
+    def new(self, weighted):
+        from hypergraphx import MultiplexHypergraph
+
+        return MultiplexHypergraph(weighted=weighted)
+
+    def model(self, weighted):
+        return MapModel(self.kind, weighted)
+
+    def facade(self, m):
+        return MFacade(m)
+
+    def apply(self, h, op):
+        n = op[0]
+        if n == "add_node":
+            h.add_node(op[1]) if op[2] is None else h.add_node(op[1], metadata=md_of(op[2]))
+        elif n == "add_nodes":
+            if op[2] is None:
+                h.add_nodes(list(op[1]))
+            else:
+                h.add_nodes(list(op[1]), node_metadata={k: md_of(v) for k, v in op[2]})
+        elif n == "add_edge":
+            _, raw, layer, w, md = op
+            kw = {}
+            if w is not None:
+                kw["weight"] = w
+            if md is not None:
+                kw["metadata"] = md_of(md)
+            h.add_edge(raw, layer, **kw)
+        elif n == "add_edges":
+            _, raws, layers, ws, mds = op
+            kw = {}
+            if ws is not None:
+                kw["weights"] = list(ws)
+            if mds is not None:
+                kw["metadata"] = [md_of(x) for x in mds]
+            h.add_edges(list(raws), list(layers), **kw)
+        elif n == "remove_edge":
+            h.remove_edge((op[1], op[2]))
+        elif n == "remove_node":
+            h.remove_node(op[1], keep_edges=op[2])
+        elif n == "set_weight":
+            h.set_weight(op[1], op[2], op[3])
+        elif n == "set_attr_node":
+            h.set_attr_to_node_metadata(op[1], op[2], op[3])
+        elif n == "rm_attr_node":
+            h.remove_attr_from_node_metadata(op[1], op[2])
+        elif n == "set_attr_edge":
+            h.set_attr_to_edge_metadata(op[1], op[2], op[3], op[4])
+        elif n == "rm_attr_edge":
+            h.remove_attr_from_edge_metadata(op[1], op[2], op[3])
+        elif n == "set_attr_hg":
+            h.set_attr_to_hypergraph_metadata(op[1], op[2])
+        else:
+            raise ValueError(op)
+        return h
+
+    def observe(self, h):
+        is_model = isinstance(h, MFacade)
+        if is_model:
+            deg = lambda n, **f: h.degree(n, **f)
+            overlap = lambda e: h.edge_overlap(e)
+            in_use = h.layers_in_use()
+            seen = set(h.m.layers)
+        else:
+            from hypergraphx.measures.degree import degree as _deg
+            from hypergraphx.measures.multiplex import edge_overlap
+
+            deg = lambda n, **f: _deg(h, n, **f)
+            overlap = lambda e: edge_overlap(h, e)
+        o = {}
+        nodes = q(lambda: h.get_nodes())
+        o["get_nodes"] = ms(nodes) if nodes is not ERR else ERR
+        o["get_nodes(metadata=True)"] = q(lambda: cdict(h.get_nodes(metadata=True), fv=cmd))
+        o["is_weighted"] = q(h.is_weighted)
+        o["get_edges"] = q(lambda: ms(h.get_edges(), mx))
+        o["get_edges(metadata=True)"] = q(lambda: cdict(h.get_edges(metadata=True), fk=mx, fv=cmd))
+        o["get_hypergraph_metadata"] = q(lambda: user_hmeta(h.get_hypergraph_metadata()))
+        # layer registry: must contain every layer in use and nothing never seen (DESIGN 2.5)
+        if is_model:
+            o["get_existing_layers"] = True
+        else:
+            o["get_existing_layers"] = q(lambda: set(h.get_existing_layers()))
+        for n in self.U:
+            if nodes is ERR or n not in nodes:
+                continue
+            for f in self.NF:
+                kw = dict(f)
+                fn = fname(f)
+                if f == ():
+                    o["get_incident_edges(%r)" % (n,)] = q(lambda: ms(h.get_incident_edges(n), mx))
+                o["degree(%r,%s)" % (n, fn)] = q(lambda: deg(n, **kw))
+        o["degree_sequence"] = q(lambda: cdict(h.degree_sequence() if not is_model else {n: h.degree(n) for n in h.get_nodes()}))
+        edges = q(lambda: [mx(e) for e in h.get_edges()])
+        for e in self.cand0:
+            o["edge_overlap(%r)" % (e,)] = q(lambda: overlap(e))
+            for l in self.layers:
+                present = edges is not ERR and (tuple(sorted(e)), l) in edges
+                if present:
+                    o["get_weight(%r,%r)" % (e, l)] = q(lambda: wv(h.get_weight(e, l)))
+                    o["get_edge_metadata(%r,%r)" % (e, l)] = q(lambda: cmd(h.get_edge_metadata(e, l)))
+                    if len(e) > 1:
+                        r = tuple(reversed(e))
+                        o["get_weight(%r,%r)" % (r, l)] = q(lambda: wv(h.get_weight(r, l)))
+        o["aggregated_hypergraph"] = q(lambda: hg_canon(h.aggregated_hypergraph(), with_nodes=True, with_node_md=True))
+        # derivations must leave the multiplex object unchanged (including its hypergraph-level metadata)
+        o["unchanged-after-derivations"] = q(lambda: (
+            ms(h.get_edges(), mx),
+            cdict(h.get_nodes(metadata=True), fv=cmd),
+            tuple(sorted((mx(e), wv(h.get_weight(e[0], e[1]))) for e in h.get_edges())),
+            user_hmeta(h.get_hypergraph_metadata()),
+            "MultiplexHypergraph" if is_model else h.get_hypergraph_metadata().get("type"),
+            bool(h.is_weighted()),
+        ))
+        return o
+
+    def normalize(self, obs_impl, model):
+        """the layer registry is compared by bounds, not by equality (DESIGN 2.5)"""
+        v = obs_impl.get("get_existing_layers")
+        if isinstance(v, set):
+            in_use = {k[1] for k in model.edges}
+            obs_impl = dict(obs_impl)
+            ok = in_use <= v <= set(model.layers)
+            obs_impl["get_existing_layers"] = True if ok else (
+                "registry", tuple(sorted(v)), "in-use", tuple(sorted(in_use)), "ever-seen", tuple(sorted(model.layers)))
+        return obs_impl
+
+    def content(self, h):
+        return (
+            self.name,
+            q(h.is_weighted),
+            q(lambda: cdict(h.get_nodes(metadata=True), fv=cmd)),
+            q(lambda: tuple(sorted(((mx(e), wv(h.get_weight(e[0], e[1])), cmd(h.get_edge_metadata(e[0], e[1]))) for e in h.get_edges()), key=repr))),
+            q(lambda: user_hmeta(h.get_hypergraph_metadata())),
+        )
+
+
+def make_spec(name, args):
+    import ast
+
+    if name == "Hypergraph":
+        return HypergraphSpec(tuple(args["universe"]), args["absent"])
+    cand = [ast.literal_eval(s) for s in args["cand"]]
+    if name == "DirectedHypergraph":
+        return DirectedSpec(tuple(args["universe"]), args["absent"], cand)
+    if name == "TemporalHypergraph":
+        return TemporalSpec(tuple(args["universe"]), args["absent"], cand, tuple(args["times"]))
+    if name == "MultiplexHypergraph":
+        return MultiplexSpec(tuple(args["universe"]), args["absent"], cand, tuple(args["layers"]))
+    raise ValueError(name)
